@@ -195,6 +195,11 @@ pub fn gen_scene<A: Attr>(rng: &mut Rng, max_tris: usize, maxdim: u32) -> Scene<
 pub struct Oracle {
     pub itris: Vec<ITri>,
     pub mask: Vec<bool>,
+    /// Known finding F9 (f32 accumulation in the stepped edges, DESIGN §11.2):
+    /// positional drift allowance in px, 0 when all screen coordinates are
+    /// ≤ 128 px; `mask_drift` marks centres within that distance of an edge.
+    pub drift: f64,
+    pub mask_drift: Option<Vec<bool>>,
     pub vpx: Vp,
     pub w: usize,
     pub h: usize,
@@ -208,6 +213,10 @@ pub fn build_oracle<A: Attr>(sc: &Scene<A>) -> Oracle {
     let vpx = Vp::new(l, t, r, b).flipped(sc.flip);
     let (w, h) = (sc.win.2 as usize, sc.win.3 as usize);
     let mut mask = vec![false; w * h];
+    let extent = r.max(b) as f64;
+    let drift = if extent > 128.0 { 4e-8 * extent * extent } else { 0.0 };
+    let mut mask_drift = if drift > 0.0 { Some(vec![false; w * h]) } else { None };
+    let rd = drift.max(MASK_R) + 1e-3;
     let mut itris = vec![];
     let mut unmappable = false;
     for tr in &sc.cs.tris {
@@ -216,6 +225,9 @@ pub fn build_oracle<A: Attr>(sc: &Scene<A>) -> Oracle {
         unmappable |= it.unmappable;
         for i in 0..it.poly.len() {
             mark_near_segment(&mut mask, w, h, it.poly[i], it.poly[(i + 1) % it.poly.len()], MASK_R);
+            if let Some(md) = mask_drift.as_mut() {
+                mark_near_segment(md, w, h, it.poly[i], it.poly[(i + 1) % it.poly.len()], rd);
+            }
         }
         itris.push(it);
     }
@@ -236,9 +248,12 @@ pub fn build_oracle<A: Attr>(sc: &Scene<A>) -> Oracle {
         let s: Vec<P2> = cv.iter().map(|c| vpx.to_screen(&c.pos.0.map(|x| x as f64))).collect();
         for i in 0..3 {
             mark_near_segment(&mut mask, w, h, s[i], s[(i + 1) % 3], MASK_R);
+            if let Some(md) = mask_drift.as_mut() {
+                mark_near_segment(md, w, h, s[i], s[(i + 1) % 3], rd);
+            }
         }
     }
-    Oracle { itris, mask, vpx, w, h, unmappable }
+    Oracle { itris, mask, drift, mask_drift, vpx, w, h, unmappable }
 }
 
 /// Judges the final buffers of one component render against the oracle.
@@ -279,6 +294,12 @@ fn judge_image<A: Attr>(rep: &mut Report, sc: &Scene<A>, or: &Oracle, cv: &Canva
             }
             let centre = (wx as f64 + 0.5, wy as f64 + 0.5);
             let ndc = or.vpx.to_ndc(centre);
+            // within the F9 drift allowance of an edge (large targets only)
+            let near_drift = or.mask_drift.as_ref().is_some_and(|m| m[wy * or.w + wx]);
+            if near_drift {
+                rep.count("pixels.within_F9_drift_allowance_of_an_edge");
+            }
+            let sig = |s: &'static str| if near_drift { "image.edge_drift_large_extent" } else { s };
             hits.clear();
             let mut selfcheck_bad = false;
             for (k, it) in or.itris.iter().enumerate() {
@@ -303,10 +324,13 @@ fn judge_image<A: Attr>(rep: &mut Report, sc: &Scene<A>, or: &Oracle, cv: &Canva
                 rep.count("pixels.judged_outside");
                 if changed {
                     rep.violation(
-                        "image.outside_pixel_drawn",
+                        sig("image.outside_pixel_drawn"),
                         format!("pixel ({x},{y}) lies outside every visible part (≥ {MASK_R} px from all edges) but changed: colour {pc:#x}->{gc:#x} depth {pz}->{gz}"),
                         sc.json(),
                     );
+                    if near_drift {
+                        continue;
+                    }
                     return false;
                 }
                 continue;
@@ -331,11 +355,14 @@ fn judge_image<A: Attr>(rep: &mut Report, sc: &Scene<A>, or: &Oracle, cv: &Canva
                     rep.count("pixels.judged_occluded_by_prior_depth");
                     if changed {
                         rep.violation(
-                            "image.occluded_pixel_drawn",
+                            sig("image.occluded_pixel_drawn"),
                             format!("pixel ({x},{y}): prior reciprocal depth {pz} is nearer than the nearest triangle ({}) but the pixel changed", hits[0].0),
                             sc.json(),
                         );
-                        return false;
+                        if near_drift {
+                        continue;
+                    }
+                    return false;
                     }
                     continue;
                 }
@@ -344,11 +371,14 @@ fn judge_image<A: Attr>(rep: &mut Report, sc: &Scene<A>, or: &Oracle, cv: &Canva
             rep.count("pixels.judged_inside");
             if gc == pc {
                 rep.violation(
-                    "image.inside_pixel_not_drawn",
+                    sig("image.inside_pixel_not_drawn"),
                     format!("pixel ({x},{y}) lies inside the visible part of triangle {k} (≥ {MASK_R} px from all edges, reciprocal depth {s}) but kept its previous colour"),
                     sc.json(),
                 );
-                return false;
+                if near_drift {
+                        continue;
+                    }
+                    return false;
             }
             // first-order positional slack: the value at the best point
             // within 0.001 px of the centre
@@ -366,24 +396,61 @@ fn judge_image<A: Attr>(rep: &mut Report, sc: &Scene<A>, or: &Oracle, cv: &Canva
             let tol_a = 0.005 * ranges[k].0 + 1e-5 * ranges[k].1 + slack_a + 1e-30;
             let err_a = (got_a - ea).abs();
             rep.worst("attr_err/tol", if err_a.is_nan() { f64::INFINITY } else { err_a / tol_a }, 1.0, || format!("pixel ({x},{y}) tri {k} got {got_a} exp {ea}"));
+            // F9 attribution for value errors: explained by a positional
+            // error of at most the drift allowance
+            let drift_slack = |rep: &mut Report| -> (f64, f64) {
+                let (mut da, mut dz) = (0.0f64, 0.0f64);
+                if or.drift > 0.0 {
+                    rep.count("pixels.value_error_checked_against_F9_drift");
+                    let d = or.drift;
+                    for (dx, dy) in [(d, 0.0), (-d, 0.0), (0.0, d), (0.0, -d), (d, d), (d, -d), (-d, d), (-d, -d)] {
+                        if let Some((s2, b2)) = or.itris[k].eval(or.vpx.to_ndc((centre.0 + dx, centre.1 + dy))) {
+                            let a2 = b2[0] * av[k][0] + b2[1] * av[k][1] + b2[2] * av[k][2];
+                            da = da.max((a2 - ea).abs());
+                            dz = dz.max((s2 - s).abs());
+                        }
+                    }
+                }
+                (da, dz)
+            };
             if !(err_a <= tol_a) {
+                let (da, _) = drift_slack(rep);
                 rep.violation(
-                    "image.wrong_attribute",
+                    if near_drift {
+                        "image.edge_drift_large_extent"
+                    } else if err_a <= tol_a + da {
+                        "image.value_drift_large_extent"
+                    } else {
+                        "image.wrong_attribute"
+                    },
                     format!("pixel ({x},{y}) comp {comp}: holds attribute {got_a} ({gc:#x}); the nearest triangle ({k}) has perspective-correct value {ea} there (tol {tol_a:.3e})"),
                     sc.json(),
                 );
-                return false;
+                if near_drift || err_a <= tol_a + da {
+                        continue;
+                    }
+                    return false;
             }
             if check_depth && sc.tk.has_depth() {
                 let tol_z = 0.002 * s + slack_z;
                 let err_z = (gz as f64 - s).abs();
                 rep.worst("depth_err/tol", if err_z.is_nan() { f64::INFINITY } else { err_z / tol_z }, 1.0, || format!("pixel ({x},{y}) tri {k} got {gz} exp {s}"));
                 if !(err_z <= tol_z) {
+                    let (_, dz) = drift_slack(rep);
                     rep.violation(
-                        "image.wrong_depth",
+                        if near_drift {
+                            "image.edge_drift_large_extent"
+                        } else if err_z <= tol_z + dz {
+                            "image.value_drift_large_extent"
+                        } else {
+                            "image.wrong_depth"
+                        },
                         format!("pixel ({x},{y}): depth buffer holds {gz}; the nearest triangle ({k}) has reciprocal depth {s} there (tol {tol_z:.3e})"),
                         sc.json(),
                     );
+                    if near_drift || err_z <= tol_z + dz {
+                        continue;
+                    }
                     return false;
                 }
             }
@@ -553,9 +620,9 @@ fn front_door_case(rng: &mut Rng, rep: &mut Report) {
 }
 
 pub fn run(cfg: &Cfg, rep: &mut Report) {
-    rep.rule = "case = one scene: 1..6 (thorough: 1..12) clip-space triangles (w of either sign, any subset of planes crossed, on-plane coordinates, magnitudes over two decades; also view space through perspective/orthographic), an attribute type (7 kinds, each component rendered separately), a target kind (4), a viewport sub-rectangle of a window of a buffer ≤ 64x64, prior frame (sentinel colours; depth 0 or random per pixel); every pixel judged; non-trivial = at least one pixel judged inside a visible part; distinct by hash of all scene words".into();
+    rep.rule = "case = one scene: 1..6 (thorough: 1..12) clip-space triangles (w of either sign, any subset of planes crossed, on-plane coordinates, magnitudes over two decades; also view space through perspective/orthographic), an attribute type (7 kinds, each component rendered separately), a target kind (4), a viewport sub-rectangle of a window of a buffer ≤ 64x64 (stream large_targets: ≤ 2048x2048, f32 attribute, 1..3 triangles), prior frame (sentinel colours; depth 0 or random per pixel); every pixel judged; non-trivial = at least one pixel judged inside a visible part; distinct by hash of all scene words".into();
     rep.assumptions.push("oracle: β = M⁻¹(X,Y,1) in f64 on the exact f32 clip coordinates; real clip output used only for masking fan edges".into());
-    rep.assumptions.push("value tolerances get the first-order positional slack of 0.001 px (DESIGN §10-2); buffers ≤ 64 px so raster position error stays far inside the 0.02 px mask".into());
+    rep.assumptions.push("value tolerances get the first-order positional slack of 0.001 px (DESIGN §10-2); buffers ≤ 64 px in the main stream so raster position error stays far inside the 0.02 px mask; in the large_targets stream violations explained by the F9 drift model (screen coordinates > 128 px, positional error ≤ 4e-8·extent² px) carry their own signatures image.edge_drift_large_extent / image.value_drift_large_extent, everything else keeps the strict signatures".into());
     rep.assumptions.push("colour-only targets have no depth buffer: pixels covered by more than one visible triangle are skipped there".into());
 
     // pin: F1 through render()
@@ -602,6 +669,36 @@ pub fn run(cfg: &Cfg, rep: &mut Report) {
         rep.pin("F10.render_color_affine", if r2.n_violations() == 0 { Ok(()) } else { Err(r2.violations.values().next().map(|v| v.firsts[0].detail.clone()).unwrap_or_default()) });
     }
 
+    {
+        // pin of open finding F9 as it shows through render(): a sliver 5 px
+        // wide and 570 px tall in a 10x672 viewport of a 396x1122 frame; the
+        // reciprocal depth varies by 1 per px across it, so a drift of
+        // 0.003 px in the stepped left edge is a 1 % depth error
+        let b = f32::from_bits;
+        let sc = Scene::<f32> {
+            cs: ClipScene {
+                verts: vec![
+                    ([b(0xc2802baa), b(0xc24e9371), b(0x428f0815), b(0x429028df)], b(0x3e8c4329)),
+                    ([b(0xc182c7c6), b(0x41a846da), b(0x41f1119e), b(0x41fc2302)], b(0x3e6d5bbe)),
+                    ([b(0x3de8e155), b(0x3fbff0bf), b(0xbfa7d047), b(0x3f31f318)], b(0x3ead67c1)),
+                ],
+                tris: vec![[0, 1, 2]],
+            },
+            bw: 396,
+            bh: 1122,
+            win: (0, 0, 396, 1122),
+            vp: (386, 240, 396, 912),
+            flip: (false, false),
+            tk: Tk::FbOwned,
+            prior_random: false,
+            prior_seed: 0,
+            gen_mode: 99,
+        };
+        let mut r2 = Report::new();
+        judge_scene(&mut r2, &sc);
+        rep.pin("F9.render_depth_drift_tall_viewport", if r2.n_violations() == 0 { Ok(()) } else { Err(r2.violations.values().next().map(|v| v.firsts[0].detail.clone()).unwrap_or_default()) });
+    }
+
     let max_tris = if cfg.quick() { 6 } else { 12 };
     let n = cfg.n(120_000, 8_000_000);
     rep.run_stream(cfg, 0, "scenes", n, |rng, i, rep| match i % 7 {
@@ -614,6 +711,19 @@ pub fn run(cfg: &Cfg, rep: &mut Report) {
         _ => scene_case::<(f32, Vec3)>(rng, rep, i, max_tris),
     });
     rep.run_stream(cfg, 1, "front_doors", cfg.n(20_000, 1_500_000), |rng, _, rep| front_door_case(rng, rep));
+    // realistic frame sizes: buffers up to 2048 px a side, every pixel judged
+    rep.run_stream(cfg, 2, "large_targets", cfg.n(1_600, 60_000), |rng, i, rep| {
+        let maxdim = [256u32, 512, 1024, 2048][(i % 4) as usize];
+        let sc = gen_scene::<f32>(rng, 3, maxdim);
+        let before = rep.classes.get("pixels.judged_inside").copied().unwrap_or(0);
+        judge_scene(rep, &sc);
+        let drew = rep.classes.get("pixels.judged_inside").copied().unwrap_or(0) > before;
+        rep.case(hash_scene(&sc), drew);
+        rep.count("large_targets.scenes");
+        if (sc.vp.2 - sc.vp.0).max(sc.vp.3 - sc.vp.1) > 512 {
+            rep.count("large_targets.viewport_above_512px");
+        }
+    });
 
     rep.floor("pixels.judged_inside", 2_000_000);
     rep.floor("pixels.judged_outside", 2_000_000);
@@ -622,4 +732,5 @@ pub fn run(cfg: &Cfg, rep: &mut Report) {
     rep.floor("front_door.batch", 1_000);
     rep.floor("viewport.mirrored", 1_000);
     rep.floor("front_door.camera_drew_fragments", 1_000);
+    rep.floor("large_targets.viewport_above_512px", 100);
 }
